@@ -27,17 +27,27 @@ RULE = ("exhaustive enumeration (see exhaustive_subspace) of (input shape, targe
         "trimmed result, its data edited in place; every array under test is built in 7 ways (fresh, .native, "
         "store_native=True, from slim values, result of arithmetic, deep copy, general.yaml native_binned_only=True) and the "
         "data of Imaging in 6; values are integers (including 0 and 31-bit mantissas) times 2**sc, sc in {0, -40, 40, -70, 30}; "
-        "every call is followed by a fingerprint comparison of the objects the caller still holds; plus a random stream of larger shapes. "
+        "every call is followed by a fingerprint comparison of the objects the caller still holds; plus a random stream of larger shapes; "
+        "PHASE 4: the util functions on int / bool / uint8 / float32 ndarrays (Fortran order, strided views, read-only) with fractional pad "
+        "values; Array2D entry points on integer / float32 / list values, Kernel2D and user-subclass instances, subclass masks, shape arguments as "
+        "tuple / list / numpy integers, default arguments omitted; masks from Mask2D.all_false / circular / from_pixel_coordinates; "
+        "Imaging(..., pad_for_convolver=True/False) directly, explicit OverSamplingDataset, PSF pixel scales independent of the data's, "
+        "non-positive noise at masked pixels, noise-map edits in histories, Imaging / Kernel2D subclasses; sibling entry points "
+        "(preprocess.array_with_new_shape, Mask2D.unmasked_blurred_array_from, Mask2D.from_fits(resized_mask_shape), "
+        "Array2D.extent_of_zoomed_array, Grid2D.padded_grid_from); the default-argument objects of the anchored callables are fingerprinted "
+        "after every case. "
         "Every case is non-trivial (it runs an anchored routine); distinct = distinct JSON input.")
 EXHAUSTIVE = {
     "quick": "util resize: all shapes 1..5 x 1..5 to all targets 0..6 x 0..6; Array2D/Mask2D.resized_from: shapes 1..4^2 to "
              "targets 1..6^2 (mask drawn per case); pad / trim / pad-then-trim / trimmed_array_from: shapes 1..4^2 x kernels "
              "{1,3,5,7}^2; enlarge-then-shrink: shapes 1..4^2 x enlargements 0..3 per axis; zoom: every mask with H*W <= 7, "
              "buffer cycling 0,1,2 (negative buffers -1,-2 on every third); zoom geometry (mask properties and "
-             "zoomed_around_mask's mask with buffers cycling 0,1,-1,2,-2,0,-3 on every second one) for the same masks; apply_mask: every mask with H*W <= 6 with kernel (3,3)",
+             "zoomed_around_mask's mask with buffers cycling 0,1,-1,2,-2,0,-3 on every second one) for the same masks; apply_mask: every mask with H*W <= 6 with kernel (3,3); "
+             "Grid2D.padded_grid_from: shapes 1..3^2 x kernels {1,3,5,7}^2",
     "thorough": "util resize: shapes 1..8^2 to targets 0..9^2; Array2D/Mask2D.resized_from: shapes 1..7^2 to targets 1..9^2; "
                 "pad/trim family: shapes 1..6^2 x kernels {1,3,5,7}^2; enlarge-then-shrink: shapes 1..6^2 x enlargements 0..4; "
-                "zoom: every mask with H*W <= 9 (each buffer 0,1,2 up to H*W <= 8, cycling above), zoom geometry for the same masks; apply_mask: every mask with H*W <= 8, kernels (3,3),(1,5),(5,3)",
+                "zoom: every mask with H*W <= 9 (each buffer 0,1,2 up to H*W <= 8, cycling above), zoom geometry for the same masks; apply_mask: every mask with H*W <= 8, kernels (3,3),(1,5),(5,3); "
+                "Grid2D.padded_grid_from: shapes 1..5^2 x kernels {1,3,5,7}^2",
 }
 TRUSTED = ["correspondence harness harness/c14.py (exact: integer data times powers of two, dyadic pixel scales / origins, outputs converted with "
            "Fraction); for histories with in-place edits the harness tracks which content a re-masked dataset refers to (the live unmasked "
@@ -692,7 +702,7 @@ def defaults_fp(aa):
     """fingerprint of the DEFAULT ARGUMENT objects of the anchored callables (shared between all calls: OverSamplingDataset() ...)"""
     from autoarray.structures.arrays import array_2d_util
     from autoarray.dataset.abstract.dataset import AbstractDataset
-    fns = [aa.Imaging.__init__, AbstractDataset.__init__, aa.Imaging.apply_mask, aa.Array2D.resized_from, aa.Array2D.zoomed_around_mask,
+    fns = [aa.Imaging.__init__, AbstractDataset.__init__, aa.Imaging.apply_mask, aa.Imaging.apply_over_sampling, aa.Imaging.from_fits.__func__, aa.Array2D.resized_from, aa.Array2D.zoomed_around_mask,
            aa.Array2D.padded_before_convolution_from, aa.Mask2D.resized_from, aa.Mask2D.__init__, aa.Array2D.__init__,
            array_2d_util.resized_array_2d_from]
     out = []
